@@ -1,0 +1,13 @@
+//go:build verif
+
+package http2
+
+// C11 (client side): a DATA frame is charged against the receive windows before any of its bytes
+// are refunded: every inflow.add in processData comes after the frame went through inflow.take
+// (frames on streams the transport no longer tracks) or takeInflows (tracked streams), so the
+// window check sees the window as it was and an overrun is reported, not masked by its own refund.
+//
+//@ extend (*clientConnReadLoop).processData(rl, f) (err)
+//@   ghost charged += 1 at call take
+//@   ghost charged += 1 at call takeInflows
+//@   assert at call add: ghost(charged) == 1
